@@ -3,7 +3,8 @@
 property and of the related properties, restore /repo. Every check must exit 0.   tools_benign.py [--only C01-1,...]"""
 import json, os, glob, subprocess, sys, re, argparse
 V = os.path.dirname(os.path.abspath(__file__))
-REL = {'C01': ['C16', 'C17', 'C07', 'C08'], 'C02': ['C16', 'C17', 'C08', 'C07'], 'C03': ['C16', 'C17', 'C07', 'C08', 'C11'], 'C05': ['C16', 'C08', 'C07', 'C13'],
+REL = {'C04': ['C16', 'C08', 'C07'], 'C06': ['C08', 'C07', 'C01'], 'C07': ['C02', 'C19', 'C08', 'C17'], 'C08': ['C13', 'C12', 'C14', 'C07'], 'C15': ['C08', 'C07'], 'C17': ['C01', 'C02', 'C16', 'C08', 'C07'],
+       'C18': ['C08', 'C07', 'C03'], 'C20': ['C08', 'C07', 'C09'], 'C01': ['C16', 'C17', 'C07', 'C08'], 'C02': ['C16', 'C17', 'C08', 'C07'], 'C03': ['C16', 'C17', 'C07', 'C08', 'C11'], 'C05': ['C16', 'C08', 'C07', 'C13'],
        'C09': ['C20', 'C08', 'C07'], 'C10': ['C20', 'C08', 'C07'], 'C11': ['C08', 'C07'], 'C12': ['C08', 'C07'], 'C13': ['C12', 'C14', 'C08', 'C07'],
        'C14': ['C08', 'C07'], 'C16': ['C01', 'C02', 'C17', 'C08', 'C07'], 'C19': ['C07', 'C08']}
 
@@ -41,6 +42,8 @@ def main():
                 c = sh(['python3', os.path.join(V, 'vcheck.py'), q, '--tier', 'quick'])
                 keys = re.findall(r'^  key=(.*?) count=', c.stdout, re.M)
                 res[q] = {'exit': c.returncode, 'keys': keys[:4]}
+                if c.returncode == 2:
+                    res[q]['stderr'] = c.stderr[-600:]
                 if c.returncode != 0:
                     bad += 1
         finally:
